@@ -653,9 +653,81 @@ pub fn nts_undecryptable_native(b0: u8) -> Option<Kind> {
     out.kind
 }
 
+/// One datagram through the real `Server::handle` (daemon call shape) under a concrete policy:
+/// `deny_all` = client on the deny list with action deny, else everybody allowed.
+pub fn handle_native(msg: &[u8], deny_all: bool) -> (Option<Kind>, RecStats) {
+    let all = Nets { v4_top: 0xffff, v6_top: 0xffff };
+    let none = Nets { v4_top: 0, v6_top: 0 };
+    let cfg = Cfg {
+        deny: if deny_all { all } else { none },
+        deny_action: FilterAction::Deny,
+        allow: all,
+        allow_action: FilterAction::Deny,
+        cache_size: 0,
+        cutoff: Duration::new(1, 0),
+        require_nts: None,
+        versions: [NtpVersion::V3, NtpVersion::V4, NtpVersion::V5],
+        n_versions: 3,
+    };
+    let info = server_info(2, [127, 0, 0, 1], NtpDuration::from_exponent(-18), NtpDuration::ZERO, NtpLeapIndicator::NoWarning, tt::ts_from_raw(0));
+    let mut server = build_server(&cfg, SymClock { now: tt::ts_from_raw(0x1234_5678_0000_0000) }, info, zero_keyset());
+    let mut stats = RecStats::new();
+    let mut backing = [0u8; 1024];
+    backing[..msg.len()].copy_from_slice(msg);
+    let mut send_buf = [0u8; 1024];
+    let len = msg.len();
+    let act = server.handle(IpAddr::V4(Ipv4Addr::new(192, 0, 2, 1)), tt::ts_from_raw(0x1234_5677_0000_0000), &backing[..len], &mut send_buf[..len], &mut stats);
+    let out = outcome(&act);
+    if let Some(_) = out.kind {
+        assert!(out.resp_len <= len, "C16");
+    }
+    (out.kind, stats)
+}
+
 #[cfg(all(test, not(kani)))]
 mod native_tests {
     use super::*;
+
+    /// Sampling (not a proof) of the datagram classes Kani cannot execute within the memory cap:
+    /// every first byte x every length 0..=52 x three byte patterns x two policies. Expected: only
+    /// NTPv3/NTPv4 client-mode datagrams of 48 or 52 bytes are answered; everything else is
+    /// ignored and registered exactly once as (ParseError, Ignore).
+    #[test]
+    fn native_plain_datagrams_up_to_52() {
+        for deny in [false, true] {
+            for b0 in 0..=255u8 {
+                for len in 0..=52usize {
+                    for fill in [0x00u8, 0xff, 0x5a] {
+                        let mut m = [fill; 52];
+                        m[0] = b0;
+                        let (kind, stats) = handle_native(&m[..len], deny);
+                        assert_eq!(stats.calls, 1);
+                        let vn = if len > 0 { (b0 >> 3) & 7 } else { 0 };
+                        let ok = len > 0 && (vn == 3 || vn == 4) && (b0 & 7) == 3 && (len == 48 || len == 52);
+                        if ok {
+                            assert_eq!(kind, Some(if deny { Kind::DenyKiss } else { Kind::Time }), "b0={b0:#x} len={len}");
+                        } else {
+                            assert_eq!(kind, None, "b0={b0:#x} len={len} fill={fill:#x} was answered");
+                            assert!(stats.reason == ServerReason::ParseError && stats.response == ServerResponse::Ignore && !stats.nts);
+                        }
+                    }
+                }
+            }
+        }
+    }
+
+    /// Answer does not fit the caller's buffer: registered once as (InternalError, Ignore).
+    #[test]
+    fn native_answer_does_not_fit() {
+        let mut m = [0u8; 76];
+        m[0] = 0x23;
+        // 16-byte unique identifier field + 9 trailing bytes: the answer (48 + 28) exceeds 73 bytes
+        put_ef_header(&mut m, 48, 0x0104, 16);
+        let (kind, stats) = handle_native(&m[..73], false);
+        assert_eq!(kind, None);
+        assert!(stats.calls == 1 && stats.reason == ServerReason::InternalError && stats.response == ServerResponse::Ignore);
+    }
+
     #[test]
     fn native_client_mode_gets_nak() {
         assert_eq!(nts_undecryptable_native(0x23), Some(Kind::NakKiss));
